@@ -9,7 +9,7 @@ inplace = "--in-place" in sys.argv
 name = args[0]; tier = args[1] if len(args) > 1 else "quick"
 d = os.path.join("/verif/seeded", name)
 meta = json.load(open(os.path.join(d, "meta.json")))
-pid = meta["property"]
+pid = os.environ.get("SEED_PROP") or meta["property"]
 env = dict(os.environ)
 if inplace:
     st = subprocess.run(["git", "-C", "/repo", "status", "--porcelain"], stdout=subprocess.PIPE, text=True).stdout.strip()
@@ -32,7 +32,7 @@ finally:
     else:
         subprocess.call(["git", "-C", "/repo", "worktree", "remove", "--force", scratch])
 keys = sorted(set(re.findall(r"key=(\S+)", p.stdout)))
-meta.setdefault("check_results", {})[tier] = {"exit": p.returncode, "detected": p.returncode == 1, "keys": keys[:8], "head": subprocess.run(["git", "-C", "/repo", "rev-parse", "--short", "HEAD"], stdout=subprocess.PIPE, text=True).stdout.strip()}
+meta.setdefault("check_results", {})[tier if pid == meta["property"] else "%s:%s" % (pid, tier)] = {"exit": p.returncode, "detected": p.returncode == 1, "keys": keys[:8], "head": subprocess.run(["git", "-C", "/repo", "rev-parse", "--short", "HEAD"], stdout=subprocess.PIPE, text=True).stdout.strip()}
 json.dump(meta, open(os.path.join(d, "meta.json"), "w"), indent=1)
 print(name, tier, "exit", p.returncode, keys[:5])
 if p.returncode not in (0, 1):
